@@ -534,6 +534,61 @@ def shared_run(ctx, checks, nhist, nops, kinds=None, id3_opts=True, corr_policy=
                     c07_scenario(ctx, checks, kind, sample + "+history", runner.cur)
     if "C07" in checks:
         c07_order(ctx, checks, ctx.rng)
+        if not kinds or "ID3" in kinds:
+            c07_id3_v1_threshold(ctx, checks)
+
+
+C07_V1_WHAT = "C07 ID3: second save with the default policy changes the file (threshold moved by the ID3v1 tag removed by the first save)"
+
+
+def c07_id3_v1_threshold(ctx, checks):
+    """ID3 at file start: boundary sweep of the default padding policy's upper threshold 10240 + size/100, where size is
+    what lies behind the ID3v2 tag INCLUDING an ID3v1 tag.  First save with a fixed padding P, then load + save with the
+    default policy three times; the second default save must leave the file byte-identical to the first.
+    Known finding (class id3-v1-removal-moves-default-padding-threshold, Coq: C07_id3f_default_v1_removed_refuted): with
+    v1=0 the first default save removes the ID3v1 tag, the size shrinks by 128, the threshold drops below a padding it
+    has just kept, and the second save cuts the padding.  Everything else that is not idempotent is a fresh violation."""
+    if "C07" not in checks:
+        return
+    from mutagen.id3 import ID3, TIT2
+    v1tag = b"TAG" + bytes(125)
+    for n in (472, 872, 899, 1000):
+        payload = b"\xff\xfb\x90\x64" + bytes(n - 4)
+        t_removed = 10240 + n // 100              # threshold once the ID3v1 tag is gone
+        t_present = 10240 + (n + 128) // 100      # threshold while it counts
+        for has_v1 in (True, False):
+            for P in range(t_removed - 3, t_present + 4):
+                for v1 in (0, 1, 2):
+                    f = io.BytesIO(payload + (v1tag if has_v1 else b""))
+                    t = ID3()
+                    t.add(TIT2(encoding=3, text=["x"]))
+                    t.save(f, v1=1, padding=lambda info: P)
+                    states, seen = [], []
+                    try:
+                        for i in range(3):
+                            f.seek(0)
+                            t2 = ID3(f)
+                            f.seek(0)
+                            t2.save(f, v1=v1, padding=lambda info: (seen.append((info.padding, info.size)), info.get_default_padding())[1])
+                            states.append(f.getvalue())
+                    except Exception as e:
+                        ctx.violation("oracle", "C07 ID3: default-policy save raised %s in the padding threshold sweep" % type(e).__name__,
+                                      {"runner": "fam.c07v1", "property": "C07", "class": "id3-default-sweep-raised", "payload": n, "padding": P,
+                                       "v1": v1, "id3v1_present": has_v1})
+                        continue
+                    ctx.oracle_cases += 1
+                    ctx.count("c07:id3-v1-threshold")
+                    if states[1] == states[0] and states[2] == states[1]:
+                        continue
+                    removed = has_v1 and not W.id3v1_at_end(states[0])
+                    data = {"runner": "fam.c07v1", "property": "C07", "payload": n, "padding": P, "v1": v1, "id3v1_present": has_v1,
+                            "id3v1_removed_by_first_default_save": removed, "sizes": [len(x) for x in states],
+                            "callback_saw": [list(x) for x in seen], "thresholds": [t_removed, t_present]}
+                    if states[1] != states[0] and v1 == 0 and removed and t_removed < P <= t_present:
+                        ctx.violation("oracle", C07_V1_WHAT, dict(data, **{"class": "id3-v1-removal-moves-default-padding-threshold"}))
+                    else:
+                        ctx.violation("oracle", "C07 ID3: repeated save with the default policy changes the file",
+                                      dict(data, **{"class": "id3-default-not-idempotent"}))
 
 
 def replay_history(ctx, checks, data):
